@@ -506,12 +506,24 @@ def _debugging_unconfigure() -> list[str]:
             if isinstance(t, ast.Tuple):
                 if t.elts and _u(t.elts[0]) == "pdb.set_trace":
                     out.append("set_trace:=popped[0]")
+                if len(t.elts) > 1 and _u(t.elts[1]) == "PytaskPDB._pluginmanager":
+                    out.append("pm:=popped[1]")
+                if len(t.elts) > 2 and _u(t.elts[2]) == "PytaskPDB._config":
+                    out.append("config:=popped[2]")
             elif isinstance(t, ast.Name):
                 popped = t.id
             else:
                 raise _err(f"debugging.pytask_unconfigure: unrecognised target {_u(t)!r}")
         elif isinstance(st, ast.Expr) and _u(st.value) == "PytaskPDB._saved.pop()":
             out.append("pop")
+        elif isinstance(st, ast.Assign) and _u(st).replace(" ", "") == "PytaskPDB._wrapped_pdb_cls=None":
+            out.append("wrapped:=None")
+        elif isinstance(st, ast.If) and _u(st.test) == "PytaskPDB._pluginmanager is not None" and not st.orelse:
+            inner = [_u(x).replace('"', "'") for x in st.body]
+            if inner != ["live_manager = PytaskPDB._pluginmanager.get_plugin('live_manager')",
+                         "if live_manager is not None and live_manager.is_started:\n    live_manager.stop()"]:
+                raise _err(f"debugging.pytask_unconfigure: unrecognised block {inner}")
+            out.append("stop-live-if-started")
         elif isinstance(st, ast.Assign) and len(st.targets) == 1 and _u(st.targets[0]) == "pdb.set_trace" and popped is not None \
                 and _u(st.value) == f"{popped}[0]":
             out.append("set_trace:=popped[0]")
